@@ -661,6 +661,13 @@ func (mp *miniPipe) run(name string, ednsOn, do bool, client string) *dns.Msg {
 	if ednsOn {
 		req.SetEdns0(1232, do)
 	}
+	if strings.HasPrefix(client, "w:") {
+		// a wire-born request, as a UDP/TCP/DoT listener's strict path serves it: Chain.ResetWire on the
+		// raw packet; the first handler that needs the decoded message moves the request onto its own
+		// detached context (ResponseMeta.detachedCopy, a fresh lazy deadline and ledger owner)
+		out, _ := mp.serveWire(req, strings.TrimPrefix(client, "w:"))
+		return out
+	}
 	w := mock.NewWriter("udp", client)
 	ch := mp.p.NewChain()
 	ch.Reset(w, req)
@@ -675,6 +682,30 @@ func (mp *miniPipe) run(name string, ednsOn, do bool, client string) *dns.Msg {
 	}
 	mp.p.PutChain(ch)
 	return out
+}
+
+func (mp *miniPipe) serveWire(req *dns.Msg, client string) (*dns.Msg, bool) {
+	raw, err := req.Pack()
+	if err != nil {
+		return nil, false
+	}
+	wr := middleware.VerifC12WireRequest(raw)
+	if wr == nil {
+		return nil, false
+	}
+	w := mock.NewWriter("udp", client)
+	ch := mp.p.NewChain()
+	ch.ResetWire(w, wr)
+	carrier, cancel := context.WithTimeout(context.Background(), 5*time.Second)
+	defer cancel()
+	ch.Next(carrier)
+	ch.Finish()
+	var out *dns.Msg
+	if w.Written() {
+		out = w.Msg().Copy()
+	}
+	mp.p.PutChain(ch)
+	return out, true
 }
 
 func pipeQuery(nameID int, ednsOn, do bool, client string, kind, ndebits int) vlib.Res {
@@ -814,6 +845,8 @@ func pipeChain(id, length int, ednsOn, warm bool, client string) vlib.Res {
 	if ednsOn {
 		req.SetEdns0(1232, false)
 	}
+	wire := strings.HasPrefix(client, "w:") && !warm
+	client = strings.TrimPrefix(client, "w:")
 	w := mock.NewWriter("udp", client)
 	ch := mp.p.NewChain()
 	ch.Reset(w, req)
@@ -827,12 +860,17 @@ func pipeChain(id, length int, ednsOn, warm bool, client string) vlib.Res {
 	}
 	before := mp.st.calls.Load()
 	upBefore := fallback().hits.Load()
-	ch.Next(ctx)
 	var m *dns.Msg
-	if w.Written() {
-		m = w.Msg().Copy()
+	if wire {
+		mp.p.PutChain(ch)
+		m, _ = mp.serveWire(req, client)
+	} else {
+		ch.Next(ctx)
+		if w.Written() {
+			m = w.Msg().Copy()
+		}
+		mp.p.PutChain(ch)
 	}
-	mp.p.PutChain(ch)
 	calls := int(mp.st.calls.Load() - before)
 	if warm {
 		return vlib.Res{Impl: "warmed", Oracle: "-"}
